@@ -6,9 +6,15 @@
 (* before the end of the input; trailing the previous line or on their own  *)
 (* line).  Every decorated token list is exported; for the undecorated      *)
 (* program the printer model's text is exported too (drift reference).      *)
+(* Inner decorations (Inner = TRUE): the same comments and blank-line runs  *)
+(* in front of every token INSIDE a statement where ECMAScript permits a    *)
+(* line break (between an operator and its operand, inside argument lists,  *)
+(* array / object literals, for headers, before closing brackets, ...):     *)
+(* the printer replays the trivia of expression tokens too, and C06 speaks  *)
+(* of every accepted program.                                               *)
 EXTENDS XjsPrinter, XjsPrograms, Json, FiniteSets
 
-CONSTANTS MaxStmts, MaxDecorated, NTexts, Export
+CONSTANTS MaxStmts, MaxDecorated, NTexts, Export, Inner
 
 VARIABLES ss
 vars == <<ss>>
@@ -54,6 +60,15 @@ ExportCase(toks, pre, mouts) ==
                                                             pre |-> IF j \in DOMAIN pre THEN pre[j] ELSE <<>>]],
                            mouts |-> mouts]))
 
+ExportInner(toks, pre) ==
+  Export => PrintT(ToJson([toks |-> [j \in 1..Len(toks) |-> [ty |-> toks[j].ty, lit |-> toks[j].lit, nl |-> toks[j].nl,
+                                                            pre |-> IF j \in DOMAIN pre THEN pre[j] ELSE <<>>]],
+                           mouts |-> <<>>, inner |-> TRUE]))
+\* positions inside a statement in front of which a line break is permitted (not a restricted
+\* production) and which are not statement-level anchors
+InnerGaps(ts, anch) == {j \in 2..Len(ts) : ~ts[j].nonl /\ j \notin anch}
+InnerDecos == {<<"T">>, <<"O">>, <<"T", "O">>, <<"B", "O">>, <<"O", "B">>}
+
 Cfgs == <<Compact, Pretty(<<32, 32>>, TRUE), Pretty(<<9>>, FALSE)>>
 Inv == \A p \in Programs :
          StmtStartsOK(p, <<>>) =>
@@ -66,6 +81,13 @@ Inv == \A p \in Programs :
                 /\ \A a \in anch : \A dc \in Decos : \A k \in 0..(NTexts - 1) :
                      ((dc[1] = "T" => a > 1) /\ (k \in {a % NTexts, (a + Len(toks) + 3) % NTexts} \/ (Len(ss) = 1 /\ p = Prog(ss) /\ Len(dc) = 1))) =>
                         ExportCase(toks, (a :> PreOf(dc, k)), <<>>)
+                /\ (Inner =>
+                      LET inner == InnerGaps(ts, anch) IN
+                      /\ \A g \in inner : \A dc \in InnerDecos : ExportInner(toks, (g :> PreOf(dc, g)))
+                      \* an inner decoration together with a statement-level one, and two inner ones
+                      /\ \A g \in inner : \A a \in anch :
+                           (a > 1 /\ (g + a) % 3 = 0) => ExportInner(toks, (g :> PreOf(<<"T">>, g)) @@ (a :> PreOf(<<"O">>, a)))
+                      /\ \A g, h \in inner : (g < h /\ (g + h) % 4 = 0) => ExportInner(toks, (g :> PreOf(<<"T">>, g)) @@ (h :> PreOf(<<"T">>, h))))
                 /\ ((MaxDecorated >= 2 /\ p = Prog(ss)) =>
                       \A a, b \in anch : a < b =>
                         \A dc \in {<<"O">>, <<"T">>, <<"B", "O">>} : \A dd \in {<<"O">>, <<"B">>, <<"T", "B">>} :
